@@ -9,7 +9,7 @@ from props.common import op
 
 RULE = ('histories of register_pytree_node / register_pytree_node_class / unregister_pytree_node over a class universe '
         '(plain class, subclass, namedtuple class, struct sequence, built-ins, a non-class) x namespaces {global '
-        'sentinel, a, b, empty string} x faults (bad path-entry type) x warnings-as-errors on/off; exhaustive up to a '
+        'sentinel, a, b, empty string} x faults (bad path-entry type) x warnings-as-errors on/off, also switched between two calls of one history; exhaustive up to a '
         'length bound over a reduced alphabet, sampled beyond; after every call the engine (both none_is_leaf '
         'settings) and register_pytree_node.get (with and without a class) are observed in every namespace; distinct '
         'by history text; non-trivial = at least 2 calls')
@@ -46,6 +46,15 @@ def generate(gen, tier):
                 continue
             for warn in ('0', '1'):
                 cases.append(mk(warn, hist))
+    # warning-raising classes (namedtuple, struct sequence) with the filter flipped between calls: a registration
+    # that succeeded silently, then one of the same class elsewhere that is rolled back (and the reverse)
+    wcls = (2, 3)
+    for c in wcls:
+        for ns1, ns2 in itertools.permutations(NS, 2):
+            for w1, w2 in (('0', '1'), ('1', '0')):
+                for tail in ([], [[A('unreg'), c, ns1]], [[A('unreg'), c, ns2]], [[A('reg'), c, ns2, A('0')]]):
+                    cases.append(mk(w1, [[A('reg'), c, ns1, A('0')], [A('warn'), A(w2)], [A('reg'), c, ns2, A('0')],
+                                         *tail]))
     full = alphabet(True)
     n = 250 if tier == 'quick' else 8000
     for _ in range(n):
@@ -53,6 +62,8 @@ def generate(gen, tier):
         live = []
         for _ in range(rng.randrange(2, 9 if tier == 'quick' else 13)):
             c = rng.random()
+            if rng.random() < 0.15:
+                hist.append([A('warn'), A(rng.choice('01'))])    # the filter changes inside the history
             if c < 0.25 and live:
                 cl, ns = rng.choice(live)
                 hist.append([A('unreg'), cl, ns])
@@ -82,9 +93,13 @@ def distribution(cases):
         h = parse(c['o']['hist'])
         lens[len(h)] = lens.get(len(h), 0) + 1
         for o in h:
+            if o[0] == 'warn':
+                kinds['warn'] = kinds.get('warn', 0) + 1
+                continue
             k = f'{o[0]} cls={o[1]} ns={o[2]}'
             kinds[k] = kinds.get(k, 0) + 1
     return {'history_lengths': lens, 'distinct_ops': len(kinds),
+            'histories_changing_the_warnings_filter': sum(1 for c in cases if '(warn' in c['o']['hist']),
             'warnings_as_errors': sum(1 for c in cases if c['o']['warn'] == '1')}
 
 
@@ -121,6 +136,11 @@ def oracle(impl, o):
         if res not in ('ok', 'TypeError', 'ValueError', 'AttributeError', 'UserWarning'):
             fails.append({'key': f'unexpected-exception-{res}', 'what': f'step {i}: {render(opx)} raised {res}'})
         # 4. reference semantics: registered in N or globally, N shadowing global
+        if opx[0] == 'warn':
+            if prev is not None and render(obs) != render(prev):
+                fails.append({'key': 'filter-change-changed-registry', 'what': f'step {i}: changing the warnings filter changed the registry'})
+            prev = obs
+            continue
         kind, c, ns = opx[0], int(opx[1]), opx[2]
         nskey = '' if (isinstance(ns, Atom) and ns == 'G') else str(ns)
         if res == 'ok':
